@@ -47,22 +47,29 @@ def rule_spec(ctx) -> RuleResult:
     ig = W.methods.get("init_geoh5")
     if ig is None:
         raise AnalysisError("anchor H5Writer.init_geoh5 not found")
-    created: dict[str, list] = {}
-    for c in ast.walk(ig.node):
-        if isinstance(c, ast.Call) and isinstance(c.func, ast.Attribute) and c.func.attr == "create_group" and c.args and isinstance(c.args[0], ast.Constant):
-            created.setdefault(unparse(c.func.value), []).append(c.args[0].value)
-    proj_var = next((unparse(a.targets[0]) for a in ast.walk(ig.node) if isinstance(a, ast.Assign) and "create_group(workspace.name)" in unparse(a.value)), None)
-    if proj_var is None:
+    # which groups init_geoh5 creates, by the node each create_group call denotes (loops over hoisted name tables included)
+    from ..h5den import Den
+
+    igv = ctx.view(ig)
+    dn = Den(igv)
+    got, got_t, has_project = set(), set(), False
+    for c in ast.walk(igv.node):
+        if isinstance(c, ast.Call) and isinstance(c.func, ast.Attribute) and c.func.attr in ("create_group", "require_group") and c.args:
+            for path in dn.paths(c):
+                if path == (("PROJECT",),):
+                    has_project = True
+                elif len(path) == 2 and path[0] == ("PROJECT",) and path[1][0] == "const":
+                    got |= set(path[1][1])
+                elif len(path) == 3 and path[0] == ("PROJECT",) and path[1] == ("const", frozenset({"Types"})) and path[2][0] == "const":
+                    got_t |= set(path[2][1])
+    if not has_project:
         raise AnalysisError("H5Writer.init_geoh5: project group creation not recognised")
     want = set(doc.skeleton()) - {"Root"}
-    got = set(created.get(proj_var, []))
     ok = got == want
     res.inst(f"init_geoh5 creates {sorted(got)} under the project group; document: {sorted(want)}", ok=ok)
     if not ok:
         res.find("H5Writer", "init_geoh5", f"skeleton {sorted(got)} differs from the documented {sorted(want)}", ig.where,
                  "a new file lacks (or has an extra) mandatory flat container")
-    types_var = next((unparse(a.targets[0]) for a in ast.walk(ig.node) if isinstance(a, ast.Assign) and 'create_group("Types")' in unparse(a.value).replace("'", '"')), None)
-    got_t = set(created.get(types_var, []))
     want_t = set(doc.type_containers())
     ok = got_t == want_t
     res.inst(f"init_geoh5 creates {sorted(got_t)} under Types; document: {sorted(want_t)}", ok=ok)
@@ -158,95 +165,92 @@ def rule_link(ctx) -> RuleResult:
         "external links, no node copies",
         floor=6,
     )
+    # Decided on the DENOTATION of the handle expressions (sa/h5den.py): which node of the file an expression stands for, on the
+    # normalised body (helpers expanded, hoisted tables substituted, local aliases expanded) — not on how the locals are spelled.
+    from ..h5den import FLAT, Den, fmt
+
     p = ctx.p
     W = p.cls("H5Writer")
     wmod = W.module
-    for name, fn in W.methods.items():
-        roles = writer_roles(fn.node)
-        cu = lambda n, roles=roles: canon(n, roles)  # noqa: E731  (locals are compared by role, not by spelling)
-        defs: dict[str, list] = {}
-        for n in ast.walk(fn.node):
-            if isinstance(n, ast.Assign) and len(n.targets) == 1 and isinstance(n.targets[0], ast.Name):
-                defs.setdefault(roles.get(n.targets[0].id, n.targets[0].id), []).append(n.value)
-        for a in ast.walk(fn.node):
-            if not (isinstance(a, ast.Assign) and len(a.targets) == 1 and isinstance(a.targets[0], ast.Subscript)):
-                continue
-            t = a.targets[0]
-            key = t.slice
-            val = a.value
-            srcs = defs.get(roles.get(val.id, val.id), []) if isinstance(val, ast.Name) else [val]
-            where = f"{fn.module.relpath}:{a.lineno}"
-            if isinstance(key, ast.Constant) and key.value == "Type":
-                ok = bool(srcs) and all(isinstance(s, ast.Call) and cu(s.func).endswith("write_entity_type") for s in srcs)
-                res.inst(f"H5Writer.{name}:{a.lineno} {cu(t)[:30]} = {cu(val)} from {[cu(s)[:40] for s in srcs]}", nontrivial=True, ok=ok)
-                if not ok:
-                    res.find("H5Writer", name, f"Type link assigned from {cu(val)[:40]}", where,
-                             "the Type entry is not the node write_entity_type returned: the entity's type is a copy or another node, not the shared type under Types")
-            elif isinstance(key, ast.Constant) and key.value == "Root":
-                continue  # C02.SPEC
-            elif isinstance(val, (ast.Name,)) and any(isinstance(s, ast.Call) and cu(s.func).endswith("write_entity") for s in srcs) or "parent_handle" in cu(t.value):
-                ok = bool(srcs) and all(isinstance(s, ast.Call) and cu(s.func).endswith("write_entity") and len(s.args) >= 2 and cu(s.args[1]) == "entity" for s in srcs)
-                uid_ok = cu(key) in ("as_str_if_uuid(uid)", "as_str_if_uuid(entity.uid)") and (
-                    cu(key) != "as_str_if_uuid(uid)" or any(cu(d) == "entity.uid" for d in defs.get("uid", []))
-                )
-                res.inst(f"H5Writer.{name}:{a.lineno} child link {cu(t)[:40]} = {cu(val)}", nontrivial=True, ok=ok and uid_ok)
-                if not ok:
-                    res.find("H5Writer", name, f"child link assigned from {cu(val)[:40]}", where,
-                             "the parent's entry is not the child's node in the flat container (a copy, or another entity's node)")
-                if not uid_ok:
-                    res.find("H5Writer", name, f"child link stored under key {cu(key)[:40]}", where, "the link name is not the child's own identifier")
-    # uid-named groups are created only in the flat containers, the type containers and PropertyGroups
     n_links = 0
-    for name, fn in W.methods.items():
-        roles = writer_roles(fn.node)
-        cu = lambda n, roles=roles: canon(n, roles)  # noqa: E731
-        for c in ast.walk(fn.node):
-            if isinstance(c, ast.Call) and isinstance(c.func, ast.Attribute) and c.func.attr == "create_group" and c.args and "as_str_if_uuid" in cu(c.args[0]) or (
-                isinstance(c, ast.Call) and isinstance(c.func, ast.Attribute) and c.func.attr == "create_group" and c.args and cu(c.args[0]) in ("uid", "uid_str")
-            ):
-                base = cu(c.func.value)
-                ok = base in ("h5file[base][entity_type]", "h5file[base]['Types'][entity_type_str]", "entity_handle['PropertyGroups']", "parent_handle['PropertyGroups']")
-                res.inst(f"H5Writer.{name}:{c.lineno} uid-named group created in {base}", ok=ok)
-                if not ok:
-                    res.find("H5Writer", name, f"uid-named group created in {base[:40]}", f"{fn.module.relpath}:{c.lineno}",
-                             "an entity node is created outside the flat containers: the hierarchy entry is a separate (empty) group, not a hard link")
+    views = {name: ctx.view(fn0) for name, fn0 in W.methods.items()}
+
+    def still_called(helper: str) -> bool:
+        """some view still contains a call to the helper (it could not be expanded there)"""
+        return any(isinstance(c, ast.Call) and isinstance(c.func, ast.Attribute) and c.func.attr == helper
+                   for v in views.values() for c in ast.walk(v.node))
+
+    def called_somewhere(helper: str) -> bool:
+        return any(isinstance(c, ast.Call) and isinstance(c.func, ast.Attribute) and c.func.attr == helper
+                   for fn0 in W.methods.values() for c in ast.walk(fn0.node))
+
+    for name, fn0 in W.methods.items():
+        if name.startswith("_") and not name.startswith("__") and called_somewhere(name) and not still_called(name):
+            continue  # a private helper expanded into each of its callers: decided there, where its handles are known
+        fn = views[name]
+        d = Den(fn)
         for a in ast.walk(fn.node):
-            if isinstance(a, ast.Assign) and isinstance(a.targets[0], ast.Subscript) and "parent_handle" in cu(a.targets[0].value):
-                n_links += 1
+            if isinstance(a, ast.Assign) and len(a.targets) == 1 and isinstance(a.targets[0], ast.Subscript):
+                tp = d.paths(a.targets[0])
+                if not tp:
+                    continue  # a store into a python container, not into the file
+                vp = d.paths(a.value)
+                where = f"{fn.module.relpath}:{a.lineno}"
+                for path in sorted(tp, key=fmt):
+                    last = path[-1]
+                    vtxt = sorted(fmt(x) for x in vp) or [unparse(a.value)[:40]]
+                    if last == ("const", frozenset({"Type"})):
+                        owner = path[0][1] if len(path) == 2 and path[0][0] == "NODE" else None
+                        ok = owner is not None and vp == {(("TNODE", f"{owner}.entity_type"),)}
+                        res.inst(f"H5Writer.{name}:{a.lineno} {fmt(path)} = {vtxt}", nontrivial=True, ok=ok)
+                        if not ok:
+                            res.find("H5Writer", name, f"Type link assigned from {vtxt[0][:40]}", where,
+                                     "the Type entry is not the node write_entity_type returned: the entity's type is a copy or another node, not the shared type under Types")
+                    elif last == ("const", frozenset({"Root"})):
+                        continue  # C02.SPEC
+                    elif len(path) == 3 and path[0][0] == "NODE" and path[1][0] == "const" and path[1][1] <= FLAT:
+                        n_links += 1
+                        parent = path[0][1]
+                        uid_ok = last[0] == "uid"
+                        child = last[1] if uid_ok else None
+                        ok = uid_ok and vp == {(("NODE", child),)} and parent == f"{child}.parent"
+                        res.inst(f"H5Writer.{name}:{a.lineno} child link {fmt(path)} = {vtxt}", nontrivial=True, ok=ok)
+                        if not uid_ok:
+                            res.find("H5Writer", name, "child link stored under a key that is not the child's uid", where, "the link name is not the child's own identifier")
+                        elif not ok:
+                            res.find("H5Writer", name, f"child link assigned from {vtxt[0][:40]}", where,
+                                     "the parent's entry is not the child's node in the flat container (a copy, or another entity's node, or not under the child's parent)")
+            if isinstance(a, ast.Call) and isinstance(a.func, ast.Attribute) and a.func.attr in ("create_group", "require_group") and a.args:
+                for path in sorted(d.paths(a), key=fmt):
+                    if d.uid_expr(a.args[0]) is None:
+                        continue
+                    # a uid-named group: only as an entity node, a type node, or a property group of an entity
+                    ok = (len(path) == 1 and path[0][0] in ("NODE", "TNODE")) or (
+                        len(path) == 3 and path[0][0] == "NODE" and path[1] == ("const", frozenset({"PropertyGroups"})) and path[2][0] == "uid")
+                    res.inst(f"H5Writer.{name}:{a.lineno} uid-named group created as {fmt(path)}", ok=ok)
+                    if not ok:
+                        res.find("H5Writer", name, f"uid-named group created in {fmt(path[:-1])[:40]}", f"{fn.module.relpath}:{a.lineno}",
+                                 "an entity node is created outside the flat containers: the hierarchy entry is a separate (empty) group, not a hard link")
     ok = n_links >= 1
     res.inst(f"writer contains {n_links} parent->child hard-link store(s)", ok=ok)
     if not ok:
         res.find("H5Writer", "write_to_parent", "no parent->child hard-link store", W.methods["write_to_parent"].where,
                  "children are never linked under their parent: the tree cannot be traversed from Root")
     # write_entity_type / write_entity return values
-    wt = W.methods["write_entity_type"]
-    roles = writer_roles(wt.node)
-    cu = lambda n, roles=roles: canon(n, roles)  # noqa: E731
-    defs = {}
-    for n in ast.walk(wt.node):
-        if isinstance(n, ast.Assign) and isinstance(n.targets[0], ast.Name):
-            defs.setdefault(roles.get(n.targets[0].id, n.targets[0].id), []).append(n.value)
-    for r in [x for x in ast.walk(wt.node) if isinstance(x, ast.Return) and x.value is not None and cu(x.value) != "None"]:
-        srcs = defs.get(roles.get(r.value.id, r.value.id), []) if isinstance(r.value, ast.Name) else [r.value]
-        ok = all("['Types'][entity_type_str]" in cu(s) and "as_str_if_uuid(uid)" in cu(s) for s in srcs) and any(cu(d) == "entity_type.uid" for d in defs.get("uid", []))
-        res.inst(f"write_entity_type:{r.lineno} returns {[cu(s)[:60] for s in srcs]}", nontrivial=True, ok=ok)
-        if not ok:
-            res.find("H5Writer", "write_entity_type", f"returns {cu(r.value)[:40]}", f"{wt.module.relpath}:{r.lineno}",
-                     "the returned node is not <project>/Types/<kind>/<type uid>: entities link to a wrong or private type node")
-    wen = W.methods["write_entity"]
-    roles = writer_roles(wen.node)
-    cu = lambda n, roles=roles: canon(n, roles)  # noqa: E731
-    defs = {}
-    for n in ast.walk(wen.node):
-        if isinstance(n, ast.Assign) and isinstance(n.targets[0], ast.Name):
-            defs.setdefault(roles.get(n.targets[0].id, n.targets[0].id), []).append(n.value)
-    for r in [x for x in ast.walk(wen.node) if isinstance(x, ast.Return) and x.value is not None]:
-        srcs = defs.get(roles.get(r.value.id, r.value.id), []) if isinstance(r.value, ast.Name) else [r.value]
-        ok = all("h5file[base][entity_type]" in cu(s) and "as_str_if_uuid(uid)" in cu(s) for s in srcs) and any(cu(d) == "entity.uid" for d in defs.get("uid", []))
-        res.inst(f"write_entity:{r.lineno} returns {[cu(s)[:60] for s in srcs]}", nontrivial=True, ok=ok)
-        if not ok:
-            res.find("H5Writer", "write_entity", f"returns {cu(r.value)[:40]}", f"{wen.module.relpath}:{r.lineno}",
-                     "the returned node is not <project>/<flat container>/<entity uid>")
+    for mname, kind, what, msg in (
+        ("write_entity_type", "TNODE", "<project>/Types/<kind>/<type uid>", "entities link to a wrong or private type node"),
+        ("write_entity", "NODE", "<project>/<flat container>/<entity uid>", ""),
+    ):
+        fn = ctx.view(W.methods[mname])
+        d = Den(fn)
+        target = d.params[1] if len(d.params) > 1 else None
+        for r in [x for x in ast.walk(fn.node) if isinstance(x, ast.Return) and x.value is not None and unparse(x.value) != "None"]:
+            rp = d.paths(r.value)
+            ok = rp == {((kind, target),)}
+            res.inst(f"{mname}:{r.lineno} returns {sorted(fmt(x) for x in rp)}", nontrivial=True, ok=ok)
+            if not ok:
+                res.find("H5Writer", mname, f"returns {(sorted(fmt(x) for x in rp) or [unparse(r.value)])[0][:40]}", f"{fn.module.relpath}:{r.lineno}",
+                         f"the returned node is not {what}" + (f": {msg}" if msg else ""))
     # no soft / external links, no node copies, no group named Type
     for fn in p.all_functions():
         for n in ast.walk(fn.node):
@@ -274,49 +278,60 @@ def rule_reparent(ctx) -> RuleResult:
         floor=3,
     )
     p = ctx.p
-    st = p.cls("Entity").props["parent"].setter
+    from ..roles import bound_from
+    from ..sem import Atoms, reach_facts
+
+    st = ctx.view(p.cls("Entity").props["parent"].setter)
     g = CFG(st.node)
     arg = st.params[1]
-    add = lambda n: has_call(n, lambda c: unparse(c.func) == f"{arg}.add_children")  # noqa: E731
-    unlink = lambda n: has_call(n, lambda c: isinstance(c.func, ast.Attribute) and c.func.attr == "remove_children" and c.args and "self" in unparse(c.args[0]))  # noqa: E731
-    save = lambda n: has_call(n, lambda c: unparse(c.func) == "self.workspace.save_entity" and c.args and unparse(c.args[0]) == "self")  # noqa: E731
-    store = [n for n in g.nodes if n.kind == "stmt" and isinstance(n.ast, ast.Assign) and unparse(n.ast.targets[0]) == "self._parent"]
+    # roles: OLD = the local that remembers the previous parent (bound from self._parent / self.parent)
+    olds = {nm: "OLD" for nm in bound_from(st.node, lambda e: unparse(e) in ("self._parent", "self.parent", "getattr(self, '_parent', None)"))}
+    at = Atoms(st.node, olds)
+    add = lambda n: has_call(n, lambda c: isinstance(c.func, ast.Attribute) and c.func.attr == "add_children" and at.text(c.func.value) == arg)  # noqa: E731
+    unlink = lambda n: has_call(n, lambda c: isinstance(c.func, ast.Attribute) and c.func.attr == "remove_children" and at.text(c.func.value) == "OLD" and c.args and "self" in unparse(c.args[0]))  # noqa: E731
+    save = lambda n: has_call(n, lambda c: isinstance(c.func, ast.Attribute) and c.func.attr == "save_entity" and c.args and unparse(c.args[0]) == "self")  # noqa: E731
+    store = [n for n in g.nodes if n.kind == "stmt" and isinstance(n.ast, (ast.Assign, ast.AnnAssign)) and unparse(n.ast.targets[0] if isinstance(n.ast, ast.Assign) else n.ast.target) == "self._parent"]
     if not store:
         raise AnalysisError("Entity.parent setter: store of self._parent not found")
-    # the change test: <old parent> is not None and <old parent> != self._parent; the old parent is the local bound from self._parent / self.parent
-    from ..roles import bound_from
-    olds = {nm: "current_parent" for nm in bound_from(st.node, lambda e: unparse(e) in ("self._parent", "self.parent", "getattr(self, '_parent', None)"))}
-    cu = lambda n: canon(n, olds)  # noqa: E731
-    tests = [n for n in g.nodes if n.kind == "test" and "current_parent" in cu(n.ast) and ("!=" in cu(n.ast) or "is not self._parent" in cu(n.ast))]
-    ok = bool(tests)
-    res.inst("parent setter: tests `current_parent is not None and current_parent != self._parent`", ok=ok)
+    if not olds:
+        res.inst("parent setter: remembers the previous parent", ok=False)
+        res.find("Entity", "parent", "no test for an actual change of parent", st.where, "the old parent is never (or always) unlinked")
+        return res
+    # "the parent actually changed": the previous parent exists, differs from the new one and can unlink
+    changed = {"OLD is None": False, "OLD == self._parent": False, "OLD is self._parent": False, f"OLD == {arg}": False, f"OLD is {arg}": False,
+               "hasattr(OLD, 'remove_children')": True}
+    consulted = set()
+    for n in g.nodes:
+        if n.kind == "test" and n.ast is not None:
+            consulted |= {a for a in at.atoms_of(n.ast) if "OLD" in a}
+    ok = any(("OLD ==" in a or "OLD is self._parent" in a or f"OLD is {arg}" in a) for a in consulted)
+    res.inst(f"parent setter: tests an actual change of parent (atoms consulted on the old parent: {sorted(consulted)})", ok=ok)
     if not ok:
         res.find("Entity", "parent", "no test for an actual change of parent", st.where, "the old parent is never (or always) unlinked")
-    allowed = {"current_parent is not None", "current_parent != self._parent", "hasattr(current_parent, 'remove_children')", "current_parent is not self._parent"}
-    for t in tests:
-        conj = {cu(v) for v in t.ast.values} if isinstance(t.ast, ast.BoolOp) and isinstance(t.ast.op, ast.And) else {cu(t.ast)}
-        extra = sorted(conj - allowed)
-        res.inst(f"parent setter: the unlink of the old parent is conditioned only on an actual change of parent (extra conditions: {extra})", nontrivial=True, ok=not extra)
-        if extra:
-            res.find("Entity", "parent", f"unlink from the old parent additionally requires {extra}", st.where,
-                     "the in-memory move always happens, but for some entities the old parent's link stays on file: after close the node sits under both parents")
-    for t in tests:
-        starts = [m for m, l in t.succ if l == "true"]
-        r1 = reach(g, starts, avoid=unlink)
+    for s_ in store:
+        starts = [m for m, _ in s_.succ]
+        # under "changed", with every OTHER condition left open: no path to the exit may skip the unlink / the re-save
+        r1 = reach_facts(g, starts, at, changed, avoid=unlink)
         ok1 = g.exit not in r1
-        res.inst("parent setter: changed-parent path calls old_parent.remove_children([self])", nontrivial=True, ok=ok1)
+        # is the escape due to an extra condition (some atom outside the change test decides it)?
+        extra = sorted(a for n in r1 if n.kind == "test" and n.ast is not None for a in at.atoms_of(n.ast) if a not in changed and at.truth(n.ast, changed) is None)
+        res.inst(f"parent setter: every changed-parent path calls old_parent.remove_children([self]) (other conditions on the way: {extra})", nontrivial=True, ok=ok1)
         if not ok1:
-            res.find("Entity", "parent", "changed-parent path without old_parent.remove_children([self])", st.where,
-                     "after a move the entity is linked under both parents on file (in memory everything looks right)")
-        r2 = reach(g, starts, avoid=save)
+            if extra and any(unlink(n) for n in g.nodes):
+                res.find("Entity", "parent", f"unlink from the old parent additionally requires {extra}", st.where,
+                         "the in-memory move always happens, but for some entities the old parent's link stays on file: after close the node sits under both parents")
+            else:
+                res.find("Entity", "parent", "changed-parent path without old_parent.remove_children([self])", st.where,
+                         "after a move the entity is linked under both parents on file (in memory everything looks right)")
+        r2 = reach_facts(g, starts, at, changed, avoid=save)
         ok2 = g.exit not in r2
-        res.inst("parent setter: changed-parent path re-saves the entity (link under the new parent)", nontrivial=True, ok=ok2)
-        if not ok2:
+        res.inst("parent setter: every changed-parent path re-saves the entity (link under the new parent)", nontrivial=True, ok=ok2)
+        if not ok2 and ok1:
             res.find("Entity", "parent", "changed-parent path without workspace.save_entity(self)", st.where,
                      "after a move the entity is not linked under its new parent on file")
     dom = dominators(g)
-    for s in store:
-        ok3 = any(add(d) for d in dom[s])
+    for s_ in store:
+        ok3 = any(add(d) for d in dom[s_])
         res.inst("parent setter: new_parent.add_children([self]) precedes the store of _parent", nontrivial=True, ok=ok3)
         if not ok3:
             res.find("Entity", "parent", "_parent stored without add_children on the new parent", st.where, "the new parent does not list the entity")
@@ -326,10 +341,20 @@ def rule_reparent(ctx) -> RuleResult:
     res.inst("Workspace.remove_children -> _io_call(H5Writer.remove_child, child.uid, <kind>, parent)", ok=ok4)
     if not ok4:
         res.find("Workspace", "remove_children", "no H5Writer.remove_child call", wr.where, "the old parent's link stays on file")
-    rc = p.func("H5Writer.remove_child")
-    rc_roles = writer_roles(rc.node)
-    ok5 = any(isinstance(d, ast.Delete) and "parent_handle[ref_type][uid_str]" in canon(d, rc_roles) for d in ast.walk(rc.node))
-    res.inst("H5Writer.remove_child deletes parent_handle[ref_type][uid_str]", ok=ok5)
+    from ..h5den import Den
+
+    rc = ctx.view(p.func("H5Writer.remove_child"))
+    d = Den(rc)
+    prm = d.params  # (file, uid, ref_type, parent)
+    ok5 = False
+    for dl in ast.walk(rc.node):
+        if isinstance(dl, ast.Delete):
+            for t in dl.targets:
+                for path in d.paths(t):
+                    if len(path) == 3 and path[0] == ("NODE", prm[3] if len(prm) > 3 else "parent") and path[2] == ("uid", "param:uid") \
+                            and (path[1] == ("key", prm[2] if len(prm) > 2 else "ref_type")):
+                        ok5 = True
+    res.inst("H5Writer.remove_child deletes <node of parent>/<ref_type>/<uid>", ok=ok5)
     if not ok5:
         res.find("H5Writer", "remove_child", "does not delete the parent's link", rc.where, "the old parent's link stays on file")
     return res
@@ -356,12 +381,88 @@ def rule_pgmember(ctx) -> RuleResult:
             if not checked:
                 res.find("PropertyGroup", fn.prop or fn.name, "stores _properties without a membership test against parent.children", f"{fn.module.relpath}:{a.lineno}",
                          "a uid that is not a child of the group's object can be listed in 'Properties' and is written to the file")
-    rp = PG.methods.get("remove_properties")
-    conv = [i for i in ast.walk(rp.node) if isinstance(i, ast.If) and any(isinstance(a, ast.Assign) and unparse(a.value).endswith(".uid") for a in i.body)]
-    ok = bool(conv) and all(unparse(i.test) == f"isinstance({unparse(i.body[0].targets[0])}, Data)" for i in conv)
-    res.inst(f"PropertyGroup.remove_properties converts every Data element to its uid ({[unparse(i.test) for i in conv]})", nontrivial=True, ok=ok)
+    # remove_properties: whatever is compared with / removed from the uid list is a uid, also when the caller passed Data objects.
+    # Abstract interpretation over the CFG: RAW = the locals that may still hold a Data element on some feasible path
+    # (isinstance(<raw>, Data) is known True, every other condition is left open).
+    from ..cfg import forward as _forward
+    from ..kinds import tv as _tv
+
+    rp = ctx.view(PG.methods.get("remove_properties"))
+    g = CFG(rp.node)
+    loop_vars = {lp.target.id for lp in ast.walk(rp.node) if isinstance(lp, ast.For) and isinstance(lp.target, ast.Name)}
+    for comp in ast.walk(rp.node):
+        if isinstance(comp, ast.comprehension) and isinstance(comp.target, ast.Name):
+            loop_vars.add(comp.target.id)
+
+    def raw_of(e, rawset):
+        if isinstance(e, ast.Name):
+            return e.id in rawset
+        if isinstance(e, ast.IfExp):
+            vals = [_tv(e.test, v, {"Data": True}) for v in rawset]
+            dec = next((v for v in vals if v is not None), None)
+            if dec is True:
+                return raw_of(e.body, rawset)
+            if dec is False:
+                return raw_of(e.orelse, rawset)
+            return raw_of(e.body, rawset) or raw_of(e.orelse, rawset)
+        return False
+
+    BOT = "<infeasible>"
+
+    def transfer(node, st):
+        if st == BOT:
+            return BOT
+        a = node.ast
+        cur = set(st)
+        if node.kind == "fornext" and isinstance(a, ast.Name):
+            return frozenset(cur | {a.id})  # the loop variable is bound to the next element (a Data object in the case analysed)
+        if node.kind == "test" and a is not None:
+            out = {"true": frozenset(cur), "false": frozenset(cur), None: frozenset(cur)}
+            for v in cur:
+                t = _tv(a, v, {"Data": True})
+                if t is True:
+                    out["false"] = BOT  # infeasible for a Data element
+                elif t is False:
+                    out["true"] = BOT
+            return out
+        if node.kind == "stmt" and isinstance(a, (ast.Assign, ast.AnnAssign)) and getattr(a, "value", None) is not None:
+            tgs = a.targets if isinstance(a, ast.Assign) else [a.target]
+            for t in tgs:
+                if isinstance(t, ast.Name):
+                    cur = (cur | {t.id}) if raw_of(a.value, cur) else (cur - {t.id})
+        return frozenset(cur)
+
+    def join(x, y):
+        if x == BOT:
+            return y
+        if y == BOT:
+            return x
+        return x | y
+
+    IN = _forward(g, frozenset(), transfer, join, bottom=BOT)
+    uses = []
+    for n in g.nodes:
+        if n.ast is None or isinstance(n.ast, list):
+            continue
+        st = IN.get(n)
+        if st is None or st == BOT:
+            continue
+        src = n.ast
+        for x in ast.walk(src) if n.kind in ("stmt", "test", "return") else []:
+            key = None
+            if isinstance(x, ast.Compare) and len(x.ops) == 1 and isinstance(x.ops[0], (ast.In, ast.NotIn)) and unparse(x.comparators[0]).endswith("._properties"):
+                key = x.left
+            if isinstance(x, ast.Call) and isinstance(x.func, ast.Attribute) and x.func.attr in ("remove", "index", "count") and unparse(x.func.value).endswith("._properties") and x.args:
+                key = x.args[0]
+            if key is not None:
+                uses.append((x, raw_of(key, set(st))))
+    if not uses:
+        raise AnalysisError("PropertyGroup.remove_properties: no comparison with / removal from self._properties found")
+    bad = [x for x, raw in uses if raw]
+    ok = not bad
+    res.inst(f"PropertyGroup.remove_properties converts every Data element to its uid before touching the uid list ({len(uses)} uses)", nontrivial=True, ok=ok)
     if not ok:
-        res.find("PropertyGroup", "remove_properties", f"Data elements are converted to uids only under {[unparse(i.test) for i in conv]}", rp.where,
+        res.find("PropertyGroup", "remove_properties", "Data elements are converted to uids only under an extra condition", f"{rp.module.relpath}:{bad[0].lineno}",
                  "some data are compared as objects against the uid list and never stripped: a group keeps listing data that left its object "
                  "(re-parented or removed)")
     return res
